@@ -766,7 +766,7 @@ fn hist_params(ctx: &Ctx) -> (usize, usize, usize, usize, usize) {
         (Scale::Miri, Tier::Thorough) => (1, 2, 64, 16, 3),
         (Scale::Vg, _) => (1, 3, 300, 30, 5),
         (Scale::Native, Tier::Quick) => (2, 3, 6000, 40, 6),
-        (Scale::Native, Tier::Thorough) => (2, 4, 200000, 60, 8),
+        (Scale::Native, Tier::Thorough) => (3, 3, 200000, 60, 8),
     }
 }
 
